@@ -161,7 +161,7 @@ CALIB = {k: (min(10 * max(v, 100), K_CAP), RHO) for k, v in MEASURED.items()}
 CALIB_DEFAULT = (K_CAP, RHO)
 K_STABILITY = 300
 RHO_SLOW = 0.1          # progress required by 4K to qualify for the extension
-SLOW_FACTOR = 8         # extension for slowly but visibly converging runs
+SLOW_FACTOR = 1         # extension for slowly but visibly converging runs
 
 
 # --------------------------------------------------------------------------
